@@ -108,13 +108,16 @@ def discharge(ctx, name, goal, info=None):
     if z3.is_true(g):
         return Oblig(name, "valid", None, 0.0, "simplify", info)
     neg = z3.Not(goal)
+    stringy = _has_strings(ctx.pc, goal)
+    quick_ms = min(eng.vc_timeout_ms, 4000) if stringy else eng.vc_timeout_ms
     s = ctx.solver
     s.push()
-    s.set("timeout", eng.vc_timeout_ms)
+    s.set("timeout", quick_ms)
+    model = None
+    reason = ""
     try:
         s.add(neg)
         r = s.check()
-        model = None
         if r == z3.sat:
             model = extract_model(ctx, s.model())
         reason = s.reason_unknown() if r == z3.unknown else ""
@@ -125,31 +128,29 @@ def discharge(ctx, name, goal, info=None):
     status = "valid" if r == z3.unsat else ("refuted" if r == z3.sat else "unknown")
     size = 0
     if status == "unknown":
-        # second attempt: fresh z3 solver (non-incremental strategy), then cvc5
-        s2 = z3.Solver()
-        s2.set("timeout", eng.vc_timeout_ms)
-        for c in ctx.pc:
-            s2.add(c)
-        s2.add(neg)
-        r2 = s2.check()
-        if r2 == z3.unsat:
+        # cvc5 next (it decides most string/sequence queries z3 leaves open), then a fresh z3
+        smt2 = smt2_for(ctx.pc, neg)
+        size = len(smt2)
+        res, msg = run_cvc5(smt2, eng.cvc5_timeout_s)
+        if res == "unsat":
             status = "valid"
-            backend = "z3-fresh"
-        elif r2 == z3.sat:
-            status = "refuted"
-            backend = "z3-fresh"
-            model = extract_model(ctx, s2.model())
+            backend = "cvc5"
         else:
-            smt2 = s2.to_smt2()
-            size = len(smt2)
-            res, msg = run_cvc5(smt2, eng.cvc5_timeout_s)
-            if res == "unsat":
+            s2 = z3.Solver()
+            s2.set("timeout", eng.vc_timeout_ms)
+            for c in ctx.pc:
+                s2.add(c)
+            s2.add(neg)
+            r2 = s2.check()
+            if r2 == z3.unsat:
                 status = "valid"
-                backend = "cvc5"
-            elif res == "sat":
-                # cvc5 found a counterexample but gives us no model through this path;
-                # keep it as refuted-without-model
+                backend = "z3-fresh"
+            elif r2 == z3.sat:
                 status = "refuted"
+                backend = "z3-fresh"
+                model = extract_model(ctx, s2.model())
+            elif res == "sat":
+                status = "refuted"      # cvc5 counterexample, no model through this path
                 backend = "cvc5"
                 model = None
             else:
@@ -159,6 +160,11 @@ def discharge(ctx, name, goal, info=None):
     eng.stats["solver_time"] += dt
     ob = Oblig(name, status, model, dt, backend, info, size)
     return ob
+
+
+def _has_strings(pc, goal):
+    txt = goal.sexpr() if len(pc) > 40 else " ".join([goal.sexpr()] + [c.sexpr() for c in pc[-40:]])
+    return ("str." in txt) or ("seq." in txt) or ("String" in txt)
 
 
 def extract_model(ctx, m):
